@@ -302,7 +302,7 @@ static PENDING_DEC: Mutex<VecDeque<Arc<Ctl>>> = Mutex::new(VecDeque::new());
 /// number of times a decoder thread passed the `dec.pushed` point (frames pushed to a frame ring)
 pub static DEC_PUSHED: std::sync::atomic::AtomicUsize = std::sync::atomic::AtomicUsize::new(0);
 
-/// number of times a decoder thread found its frame ring full (`dec.wait`)
+/// number of times a decoder thread found nothing to do: its frame ring full (`dec.wait`), or all of its audio decoded (`dec.idle`)
 pub static DEC_WAITS: std::sync::atomic::AtomicUsize = std::sync::atomic::AtomicUsize::new(0);
 
 /// the next kira decoder thread that reaches a `dec.*` yield point adopts `ctl`
@@ -321,7 +321,7 @@ pub fn install_hook() {
 			DEC_PUSHED.fetch_add(1, std::sync::atomic::Ordering::SeqCst);
 			return;
 		}
-		if site == "dec.wait" {
+		if site == "dec.wait" || site == "dec.idle" {
 			DEC_WAITS.fetch_add(1, std::sync::atomic::Ordering::SeqCst);
 		}
 		unarmed(|| {
